@@ -68,9 +68,12 @@ class C12(core.Check):
         "too-deep includes), each result compared with brand-new objects; W1F adds 1-3 I/O faults keyed by the "
         "k-th matching open/read. W2: 2-4 (thorough: up to 16) real threads x 1-4 module-level calls (loads, "
         "open, load, dumps, dump, save, validate, find, findall, findunique, findkey, create) on private and "
-        "shared inputs under a seeded schedule (random walk / PCT-style priorities / starvation), pre-empted at "
-        "source-line granularity inside repo code (25% of runs also inside lark/jsonref/jsonschema), compared "
-        "with the sequential results. distinct = distinct digest of (case, schedule segments actually taken); "
+        "shared inputs (incl. projects in different directories writing the same relative INCLUDE name) under a "
+        "seeded schedule (random walk / PCT-style priorities / starvation / fine_start / entry_sync = all threads "
+        "released together at each call boundary, line by line), pre-empted at source-line granularity inside repo "
+        "code (25% of runs also inside lark/jsonref/jsonschema), 20% of runs with 1-2 I/O faults armed during the "
+        "threaded pass (the call that meets the fault is exempt, every other call is not), compared with the same "
+        "call run alone in a pristine process. distinct = distinct digest of (case, schedule segments actually taken); "
         "non-trivial = the run contained a fault that fired, or a cross-thread switch inside repo code, or at "
         "least two operation kinds on one reused object."
     )
@@ -270,8 +273,14 @@ class C12(core.Check):
             sched["fine_steps"] = k.choice([30, 100, 400])
         if sk == "random":
             sched["budgets"] = k.choice([[1, 2, 3, 5, 8, 13, 50, 200, 1000], [1, 1, 2, 3], [1, 2, 3, 5, 8, 13], [5, 20, 80], [50, 200, 1000, 5000], [1, 5, 1000]])
+        fl = []
+        if k.random() < 0.2:
+            f = s("faults")
+            for _ in range(f.choice([1, 1, 2])):
+                fl.append({"op": f.choice(["open", "read"]), "cls": f.choice(["schema", "schema", "simfs", "grammar"]),
+                           "k": f.choice([1, 2, 3, 5, 8, 13, 21, 34]), "err": f.choice(["EIO", "ENOENT"])})
         return {"prop": "C12", "world": "W2", "seed": seed, "docs": docs, "files": files, "paths": paths, "dicts": dicts,
-                "threads": threads, "schedule": sched, "deps": k.random() < 0.25}
+                "threads": threads, "schedule": sched, "deps": k.random() < 0.25, "faults": fl}
 
     # ------------------------------------------------------------ helpers
     def doc_path(self, case, did):
@@ -605,14 +614,24 @@ class C12(core.Check):
                 spec["stall"] = int(est * spec.get("stall_frac", 0.5))
             sched = simsched.Scheduler(spec, max_steps=(est * 8 + 500000) if not deps else 200_000_000, wall_timeout=self.run_timeout_s - 30)
 
+            import _thread
+
+            faulted_calls = set()
+
             def body(t, calls):
                 def f():
                     out = []
                     for j, c in enumerate(calls):
                         simsched.call_boundary()
+                        n0 = len(fs.fired_by_thread.get(_thread.get_ident(), ()))
                         out.append(list(self.do_call(c, ctx, f"t{t}c{j}")))
+                        if len(fs.fired_by_thread.get(_thread.get_ident(), ())) > n0:
+                            faulted_calls.add((t, j))  # this call itself met an injected I/O error: it may fail
                     return out
                 return f
+
+            # the fault plan is armed only now: reference results above were computed fault-free
+            fs.faults = [dict(f_, _n=0, _done=False) for f_ in case.get("faults", [])]
 
             if deps:
                 simsched.install(self.dep_code_objects(), ())
@@ -623,6 +642,8 @@ class C12(core.Check):
             finally:
                 if deps:
                     simsched.uninstall(self.dep_code_objects())
+            for f_ in fs.fired_faults:
+                bump(f"fault.threads.{f_['op']}_{f_['cls']}_{f_['err']}")
             bump("sched." + spec.get("kind", "random"))
             bump("sched.switches", sched.switches)
             bump("threads", len(case["threads"]))
@@ -638,6 +659,9 @@ class C12(core.Check):
                         violation = self.viol("thread_crashed", "threads", {"thread": t, "error": core.exc_repr(res[1]) if res[1] else res[0]}, world="W2", op="thread")
                         break
                     for j, (g, e) in enumerate(zip(res[1], exp)):
+                        if (t, j) in faulted_calls:
+                            bump("faulted_calls")
+                            continue
                         if g != e:
                             c = case["threads"][t][j]
                             violation = self.viol("threaded_differs_from_sequential", c["fn"],
@@ -653,10 +677,11 @@ class C12(core.Check):
         out = {
             "violation": violation,
             "digest": core.digest([case["docs"], case["threads"], sched.segments]),
-            "nontrivial": sched.switches > 0,
+            "nontrivial": sched.switches > 0 or bool(fs.fired_faults),
             "stats": stats,
             "steps": sched.steps,
             "cover": sorted(sched.pairs)[:400],
+            "tags": {"interleavings_of_threads": sched.digest()},
         }
         if violation:
             out["case_explicit"] = explicit
